@@ -9,11 +9,13 @@
 
 mod acct;
 mod alloc;
+mod archw;
 mod authw;
 mod bytesw;
 mod common;
 mod crash;
 mod device;
+mod filew;
 mod interpose;
 mod logw;
 mod net;
@@ -68,6 +70,7 @@ fn execute(plan: Plan, dir: &Path) -> RunOutcome {
             "logw" => logw::execute(plan, &dir).await,
             "acct" => acct::execute(plan, &dir).await,
             "netw" => netw::execute(plan, &dir).await,
+            "filew" => filew::execute(plan, &dir).await,
             "crash" => crash::execute(plan, &dir).await,
             "bytes" => bytesw::execute(plan, &dir).await,
             other => panic!("unknown family {other}"),
@@ -81,6 +84,7 @@ fn generate(family: &str, property: &str, seed: u64, tier: Tier) -> Plan {
         "logw" => logw::generate(property, seed, tier),
         "acct" => acct::generate(property, seed, tier),
         "netw" => netw::generate(property, seed, tier),
+        "filew" => filew::generate(property, seed, tier),
         "crash" => crash::generate(property, seed, tier),
         "bytes" => bytesw::generate(property, seed, tier),
         other => panic!("unknown family {other}"),
